@@ -307,8 +307,37 @@ def r3(ctx, e, d):
     ef, df = flagnames(e, ec, eb), flagnames(d, dc, db)
     ecur = index_cursor(e, e.params[0]['n'])        # where the encoder appends
     dcur = index_cursor(d, d.params[2]['n'])        # where the decoder consumes
-    FLAGS = set("#- +'I.0123456789*lztj")
-    convs = [c for c in sorted(set(ec) & set(dc)) if c not in FLAGS]
+    # a flag / width / length modifier goes back into the switch for the next character of the same directive; a conversion
+    # finishes the directive and goes round the scanning loop (by role, so that a new modifier needs no table here)
+    def modifiers(f, sw, tg):
+        loops = f.natural_loops()
+        hs = [h for h in loops if sw.id in loops[h]]
+        outer = max(hs, key=lambda h: len(loops[h]))
+        res = set()
+        for c, start in tg.items():
+            seen, work, reached = set(), [start], set()
+            while work:
+                b = work.pop()
+                if b in seen:
+                    continue
+                seen.add(b)
+                if (b in hs or b == sw.id) and b != start:
+                    reached.add(b)
+                    continue
+                blk = f.blocks[b]
+                if blk.noreturn or b == f.exit:
+                    continue
+                work.extend(t for (t, _l) in blk.succs)
+            if reached and outer not in reached:
+                res.add(c)
+        return res
+    emod, dmod = modifiers(e, esw, ec), modifiers(d, dsw, dc)
+    both = set(ec) & set(dc)
+    split = sorted((emod ^ dmod) & both)
+    ctx.check('R3', 'same-modifiers', not split, e, 'both sides treat the same %d characters as flags, widths and length modifiers' % len(emod & dmod),
+              'characters that are part of a directive on one side and end it on the other: %s' % split)
+    FLAGS = emod | dmod
+    convs = [c for c in sorted(both) if c not in FLAGS]
     if len(convs) < 10:
         raise AnalysisBroken('only %d conversions found' % len(convs))
     for c in convs:
